@@ -13,6 +13,6 @@ rsync -a --exclude .git /repo/ "$D/repo/"
 (cd "$D/repo" && go build ./... ) || { echo "BUILD FAILED"; exit 2; }
 mkdir -p "$D/verif/evidence"; cp known_findings.txt "$D/verif/"
 for id in "$@"; do
-  ( ./bin/verifchk -prop "$id" -tier quick -repo "$D/repo" -verif "$D/verif" 2>&1 | grep -E "^(FINDING|UNDECIDED|VACUITY|ERROR|SUMMARY|NOTE|panic)" | cut -c1-${CUT:-420} | sed "s/^/[$id] /" ) &
+  ( ${VERIF_CHK:-./bin/verifchk} -prop "$id" -tier quick -repo "$D/repo" -verif "$D/verif" 2>&1 | grep -E "^(FINDING|UNDECIDED|VACUITY|ERROR|SUMMARY|NOTE|panic)" | cut -c1-${CUT:-420} | sed "s/^/[$id] /" ) &
 done
 wait
